@@ -126,7 +126,14 @@ def run(ctx):
         jobs.append(("str", PRELUDE + "Definition cases : list str_case := %s.\n" % lit,
                      {"model": "str_model_mismatches cases", "ref": "str_ref_mismatches cases", "out": "str_outside_premises cases"}))
         meta.append(("str", [i for g in p for i in g], p))
-    results = ctx.coq_eval_many(jobs)
+    # thorough: ~100 jobs of 2-4 GB each; on the shared machine some coqc were killed without output
+    # when 16 ran at once, so run fewer at a time and re-run a failed chunk once on its own
+    results = ctx.coq_eval_many(jobs, workers=(None if ctx.tier == "quick" else 8))
+    for i, r in enumerate(results):
+        if r is None:
+            results[i] = ctx.coq_eval_lists("retry%d" % i, jobs[i][1], jobs[i][2])
+            if results[i] is not None:
+                ctx.notes.append("chunk %d succeeded on retry" % i)
     bad = {"res_model": [], "res_ref": [], "str_model": [], "str_ref": []}
     outside = 0
     for (kind, info, p), r in zip(meta, results):
